@@ -15,9 +15,11 @@ package main
 // expression by direct calls, which the inliner and go/ssa resolve statically.
 
 import (
+	"bytes"
 	"fmt"
 	"go/ast"
 	"go/constant"
+	"go/printer"
 	"go/token"
 	"go/types"
 	"sort"
@@ -1160,6 +1162,235 @@ func (n *normalizer) methodValueClosureRound() bool {
 			n.notes = append(n.notes, fmt.Sprintf("method value %s.%s written as a closure calling the method", id.Name, sel.Sel.Name))
 			changed = true
 			return true
+		})
+	}
+	return changed
+}
+
+// pureExprRound: a new helper whose whole body is `return E`, E an expression without calls (conversions, make/len/cap/new,
+// literals, selectors, operators allowed), called with side-effect-free arguments: the call is replaced in place by
+// `(T)(E[args])`. Evaluation happens exactly where the call stood, so this works in every position — a channel operand of
+// a select case, a composite-literal element, a condition — where statement-level inlining would have to move the call.
+func (n *normalizer) pureExprRound() bool {
+	changed := false
+	for _, f := range n.pp.Syntax {
+		filename := n.fset.File(f.Pos()).Name()
+		var stack []ast.Node
+		ast.Inspect(f, func(x ast.Node) bool {
+			if x == nil {
+				stack = stack[:len(stack)-1]
+				return true
+			}
+			stack = append(stack, x)
+			call, ok := x.(*ast.CallExpr)
+			if !ok || call.Ellipsis.IsValid() {
+				return true
+			}
+			callee, _ := n.calleeOf(call)
+			if callee == nil || callee.Origin() != callee || !n.helpers[callee] {
+				return true
+			}
+			fd := n.decls[callee]
+			sig := callee.Type().(*types.Signature)
+			if fd == nil || fd.Body == nil || len(fd.Body.List) != 1 || sig.Results().Len() != 1 || sig.Variadic() || sig.TypeParams().Len() > 0 || sig.RecvTypeParams().Len() > 0 {
+				return true
+			}
+			ret, ok := fd.Body.List[0].(*ast.ReturnStmt)
+			if !ok || len(ret.Results) != 1 {
+				return true
+			}
+			// not inside the helper's own declaration
+			for _, a := range stack {
+				if a == ast.Node(fd) {
+					return true
+				}
+			}
+			// parameters (and receiver) -> argument texts
+			subst := map[types.Object]string{}
+			okArgs := true
+			bind := func(id *ast.Ident, arg ast.Expr) {
+				if id == nil || id.Name == "_" {
+					if !pureExpr(arg, n.info) {
+						okArgs = false
+					}
+					return
+				}
+				if !pureExpr(arg, n.info) {
+					okArgs = false
+					return
+				}
+				subst[n.info.Defs[id]] = "(" + n.src(filename, arg.Pos(), arg.End()) + ")"
+			}
+			params := fieldIdents(fd.Type.Params)
+			if len(params) != len(call.Args) {
+				return true
+			}
+			for i, p := range params {
+				bind(p, call.Args[i])
+			}
+			if fd.Recv != nil {
+				sel, isSel := ast.Unparen(call.Fun).(*ast.SelectorExpr)
+				if !isSel {
+					return true
+				}
+				if s := n.info.Selections[sel]; s == nil || s.Kind() != types.MethodVal || len(s.Index()) != 1 || s.Indirect() {
+					return true
+				}
+				// receiver and argument of the same kind (no implicit & or *)
+				_, recvPtr := sig.Recv().Type().(*types.Pointer)
+				_, argPtr := n.info.TypeOf(sel.X).Underlying().(*types.Pointer)
+				if recvPtr != argPtr {
+					return true
+				}
+				rids := fieldIdents(fd.Recv)
+				if len(rids) == 1 {
+					bind(rids[0], sel.X)
+				}
+			}
+			if !okArgs {
+				return true
+			}
+			// E: no calls except conversions and allocation/length builtins, no receives, no function literals, every
+			// identifier a parameter, a package-level name or a universe name
+			okE := true
+			ast.Inspect(ret.Results[0], func(y ast.Node) bool {
+				switch z := y.(type) {
+				case *ast.FuncLit:
+					okE = false
+				case *ast.UnaryExpr:
+					if z.Op == token.ARROW {
+						okE = false
+					}
+				case *ast.CallExpr:
+					if tv, ok := n.info.Types[z.Fun]; ok && tv.IsType() {
+						return okE
+					}
+					if id, ok := z.Fun.(*ast.Ident); ok {
+						if _, isB := n.info.Uses[id].(*types.Builtin); isB {
+							switch id.Name {
+							case "make", "len", "cap", "new":
+								return okE
+							}
+						}
+					}
+					okE = false
+				case *ast.Ident:
+					obj := n.info.Uses[z]
+					if obj == nil {
+						return okE
+					}
+					if _, isParam := subst[obj]; isParam {
+						return okE
+					}
+					if v, isVar := obj.(*types.Var); isVar && v.IsField() {
+						return okE
+					}
+					if obj.Parent() == types.Universe || obj.Parent() == n.pp.Types.Scope() {
+						// the name must mean the same at the call site
+						if sc := n.pp.Types.Scope().Innermost(call.Pos()); sc != nil {
+							if _, found := sc.LookupParent(z.Name, call.Pos()); found != obj {
+								okE = false
+							}
+						}
+						return okE
+					}
+					if _, isPkg := obj.(*types.PkgName); isPkg {
+						okE = false // would need the import at the call site; left to statement-level inlining
+						return okE
+					}
+					if _, isFn := obj.(*types.Func); isFn {
+						return okE // a method name in a selector
+					}
+					okE = false
+				}
+				return okE
+			})
+			if !okE {
+				return true
+			}
+			tt, ok := n.typeText(sig.Results().At(0).Type(), f, filename)
+			if !ok {
+				return true
+			}
+			if n.overlaps(filename, n.off(call.Pos()), n.off(call.End())) {
+				return true
+			}
+			m := map[ast.Node]ast.Node{}
+			e := cloneAST(ret.Results[0], m).(ast.Expr)
+			for on, cn := range m {
+				if id, ok := on.(*ast.Ident); ok {
+					if txt, isParam := subst[n.info.Uses[id]]; isParam {
+						cn.(*ast.Ident).Name = txt
+					}
+				}
+			}
+			var buf bytes.Buffer
+			if err := printer.Fprint(&buf, n.fset, e); err != nil {
+				return true
+			}
+			text := strings.ReplaceAll(buf.String(), "\n", " ")
+			n.addEdit(filename, n.off(call.Pos()), n.off(call.End()), "("+tt+")("+text+")")
+			n.notes = append(n.notes, fmt.Sprintf("call of %s at %s:%d replaced by the expression it returns", funcKeyOf(callee), shortFile(filename), n.fset.Position(call.Pos()).Line))
+			changed = true
+			return false
+		})
+	}
+	return changed
+}
+
+// switchInitRound: `switch x := f(); tag {…}` with f a new helper becomes `{ x := f(); switch tag {…} }`, the position in
+// which the inliner handles the call.
+func (n *normalizer) switchInitRound() bool {
+	changed := false
+	for _, f := range n.pp.Syntax {
+		filename := n.fset.File(f.Pos()).Name()
+		var stack []ast.Node
+		ast.Inspect(f, func(x ast.Node) bool {
+			if x == nil {
+				stack = stack[:len(stack)-1]
+				return true
+			}
+			stack = append(stack, x)
+			sw, ok := x.(*ast.SwitchStmt)
+			if !ok || sw.Init == nil || len(stack) < 2 || !isListParent(stack[len(stack)-2], sw) {
+				return true
+			}
+			if _, isLabeled := stack[len(stack)-2].(*ast.LabeledStmt); isLabeled {
+				return true
+			}
+			has := false
+			ast.Inspect(sw.Init, func(y ast.Node) bool {
+				if call, ok := y.(*ast.CallExpr); ok {
+					if callee, _ := n.calleeOf(call); callee != nil && n.helpers[callee.Origin()] {
+						has = true
+					}
+				}
+				return !has
+			})
+			if !has {
+				return true
+			}
+			start, end := n.off(sw.Pos()), n.off(sw.End())
+			if n.overlaps(filename, start, end) {
+				return true
+			}
+			initText := n.src(filename, sw.Init.Pos(), sw.Init.End())
+			line := n.fset.Position(sw.Pos()).Line
+			// drop "INIT;" from the header, open a block before and close it after
+			semi := n.off(sw.Init.End())
+			src := n.content(filename)
+			for semi < len(src) && src[semi] != ';' {
+				semi++
+			}
+			if semi >= len(src) {
+				return true
+			}
+			n.addEdit(filename, start, start, "\n"+n.pinLines("{\n"+initText+"\n", filename, line)+n.lineDirective(filename, line))
+			n.addEdit(filename, n.off(sw.Init.Pos()), semi+1, "")
+			n.addEdit(filename, end, end, "\n"+n.lineDirective(filename, n.fset.Position(sw.End()).Line)+"}\n"+n.lineDirective(filename, n.fset.Position(sw.End()).Line))
+			n.notes = append(n.notes, fmt.Sprintf("init statement of the switch at %s:%d moved in front of it", shortFile(filename), line))
+			changed = true
+			return false
 		})
 	}
 	return changed
